@@ -48,6 +48,7 @@ def items(tier):
                     "din": din, "dout": dout, "tier": tier, "cost": 3})
     out.append({"name": "histories", "kind": "hist", "tier": tier, "cost": 5})
     out.append({"name": "functionset-two-variables", "kind": "fset2", "tier": tier, "cost": 2})
+    out.append({"name": "trunk-linear-layer", "kind": "trunklinear", "tier": tier, "cost": 1})
     for copied in (True, False):
         out.append({"name": "trunk-variable-order|copied=%s" % copied, "kind": "trunkorder", "copied": copied, "tier": tier, "cost": 2})
     return out
@@ -118,6 +119,38 @@ def run_item(item):
         seen.add(key)
         res["violations"].append({"key": key, "what": "%s: %s" % (item["name"], what), "detail": {"item": item["name"]}})
     tier = item["tier"]
+    if item["kind"] == "trunklinear":
+        # the public fast-path layer equals torch.nn.Linear with the same weights, with and WITHOUT a bias, for 2-D and 3-D inputs
+        for bias in (True, False):
+            for din, dout in ((1, 2), (3, 2), (2, 1)):
+                cfg = "TrunkLinear(%d, %d, bias=%s)" % (din, dout, bias)
+                res["states"].append(cfg)
+                torch.manual_seed(5)
+                lay = TrunkLinear(din, dout, bias=bias)
+                ref = nn.Linear(din, dout, bias=bias)
+                with torch.no_grad():
+                    ref.weight.copy_(lay.weight)
+                    if bias:
+                        ref.bias.copy_(lay.bias)
+                res["evals"] += 1
+                res["transitions"] += 2
+                nparams = sum(p_.numel() for p_ in lay.parameters())
+                if nparams != din * dout + (dout if bias else 0) or ((lay.bias is None) != (not bias)):
+                    viol("C09|trunk-linear|parameters", "%s has %d learnable numbers (bias %s)" % (cfg, nparams, "present" if lay.bias is not None else "absent"))
+                    continue
+                okk = True
+                for shape in ((4, din), (2, 4, din)):
+                    # the layer is specified for inputs that are copies along the first of three axes; a 2-D input counts as one copy
+                    x2 = torch.linspace(-1, 1, 4 * din).reshape(4, din)
+                    x = x2 if len(shape) == 2 else x2.unsqueeze(0).repeat(shape[0], 1, 1)
+                    with torch.no_grad():
+                        a_, b_ = lay(x), ref(x if len(shape) == 3 else x.unsqueeze(0))
+                    if a_.shape != b_.shape or not torch.allclose(a_, b_, rtol=1e-6, atol=1e-7):
+                        viol("C09|trunk-linear|value", "%s on an input of shape %s differs from torch.nn.Linear with the same weights" % (cfg, shape))
+                        okk = False
+                if okk:
+                    res["outcomes"].append(cfg)
+        return res
     if item["kind"] == "fset2":
         # input functions of TWO variables (x, t); the discretisation points are stored as (t, x): the branch input built
         # from the function set equals the by-name values f_k(x_i, t_i) supplied as a tensor
